@@ -369,6 +369,94 @@ theorem shrink_roi_scaled (src dst : Shape) (fwd A : Aff) (n ttol stol : Rat) (p
         ⟨by simp only [zoomOutDim]; omega, by simp only [zoomOutDim]; omega⟩ hd _ hb
       exact this
 
+/-! ## the int8 / bool conversion detour of `_rio_reproject` is transparent -/
+
+/-- every value the nearest-neighbour warp produces is a source pixel, the previous destination pixel, or the fill -/
+theorem gdalNN_mem (src dst : Int → Int → Int) (shape : Int × Int) (A : Aff) (sn dn : Option Int) (init : Bool)
+    (dy dx : Int) :
+    (∃ iy ix, gdalNN src dst shape A sn dn init dy dx = src iy ix) ∨
+    gdalNN src dst shape A sn dn init dy dx = dst dy dx ∨ gdalNN src dst shape A sn dn init dy dx = effFill sn dn := by
+  unfold gdalNN
+  simp only
+  have hrest : (if init = true then effFill sn dn else dst dy dx) = dst dy dx ∨
+      (if init = true then effFill sn dn else dst dy dx) = effFill sn dn := by
+    cases init <;> simp
+  cases nnPick shape A dy dx with
+  | none => exact Or.inr hrest
+  | some p =>
+    simp only
+    by_cases hm : sn = some (src p.1 p.2)
+    · rw [if_pos hm]; exact Or.inr hrest
+    · rw [if_neg hm]; exact Or.inl ⟨p.1, p.2, rfl⟩
+
+theorem wrap8_id (v : Int) (h : -128 ≤ v ∧ v ≤ 127) : wrap8 v = v := by
+  unfold wrap8; omega
+
+/-- **int8: convert → warp → convert back is the warp.**  For an int8 raster (all source / destination pixels and the
+nodata values in `[-128, 127]`) `_rio_reproject` returns exactly what the nearest-neighbour warp at the native type
+would: every destination pixel, previous destination content and `init_dest_nodata=False` included. -/
+theorem detour_transparent_int8 (src dst : Int → Int → Int) (shape : Int × Int) (A : Aff) (sn dn : Option Int)
+    (init : Bool) (dy dx : Int)
+    (hs : ∀ i j, -128 ≤ src i j ∧ src i j ≤ 127) (hd : -128 ≤ dst dy dx ∧ dst dy dx ≤ 127)
+    (hsn : ∀ v, sn = some v → -128 ≤ v ∧ v ≤ 127) (hdn : ∀ v, dn = some v → -128 ≤ v ∧ v ≤ 127) :
+    rioNN .int8 src dst shape A sn dn init dy dx = gdalNN src dst shape A sn dn init dy dx := by
+  have e : rioNN .int8 src dst shape A sn dn init dy dx = wrap8 (gdalNN src dst shape A sn dn init dy dx) := by
+    simp [rioNN, fromWork, toWork, stretchNodata]
+  rw [e]
+  apply wrap8_id
+  have hf : -128 ≤ effFill sn dn ∧ effFill sn dn ≤ 127 := by
+    unfold effFill
+    cases dn with
+    | some v => exact hdn v rfl
+    | none => cases sn with
+      | some v => exact hsn v rfl
+      | none => simp
+  rcases gdalNN_mem src dst shape A sn dn init dy dx with ⟨iy, ix, h⟩ | h | h
+  · rw [h]; exact hs iy ix
+  · rw [h]; exact hd
+  · rw [h]; exact hf
+
+/-- **bool: the `0/255` stretch is transparent too.**  For a boolean raster (pixels and nodata values `0` or `1`) the
+detour — stretch source, destination and nodata to `0 / 255`, warp, threshold at 127 — returns exactly the
+nearest-neighbour warp at the native type, previous destination content included.  (Warping into a *fresh zero*
+work array instead of the converted destination breaks this for `init = false`.) -/
+theorem detour_transparent_bool (src dst : Int → Int → Int) (shape : Int × Int) (A : Aff) (sn dn : Option Int)
+    (init : Bool) (dy dx : Int)
+    (hs : ∀ i j, src i j = 0 ∨ src i j = 1) (hd : dst dy dx = 0 ∨ dst dy dx = 1)
+    (hsn : ∀ v, sn = some v → v = 0 ∨ v = 1) (hdn : ∀ v, dn = some v → v = 0 ∨ v = 1) :
+    rioNN .bool src dst shape A sn dn init dy dx = gdalNN src dst shape A sn dn init dy dx := by
+  have hsn' : sn = none ∨ sn = some 0 ∨ sn = some 1 := by
+    cases sn with
+    | none => left; rfl
+    | some v => rcases hsn v rfl with rfl | rfl <;> simp
+  have hdn' : dn = none ∨ dn = some 0 ∨ dn = some 1 := by
+    cases dn with
+    | none => left; rfl
+    | some v => rcases hdn v rfl with rfl | rfl <;> simp
+  unfold rioNN gdalNN
+  simp only [fromWork, toWork]
+  cases nnPick shape A dy dx with
+  | none =>
+    rcases hd with h | h <;> rcases hsn' with rfl | rfl | rfl <;> rcases hdn' with rfl | rfl | rfl <;> cases init <;>
+      simp [h, effFill, stretchNodata]
+  | some p =>
+    rcases hs p.1 p.2 with h1 | h1 <;> rcases hd with h | h <;> rcases hsn' with rfl | rfl | rfl <;>
+      rcases hdn' with rfl | rfl | rfl <;> cases init <;> simp [h1, h, effFill, stretchNodata]
+
+/-- other pixel types are aliased: no conversion at all -/
+theorem detour_other (src dst : Int → Int → Int) (shape : Int × Int) (A : Aff) (sn dn : Option Int) (init : Bool)
+    (dy dx : Int) : rioNN .other src dst shape A sn dn init dy dx = gdalNN src dst shape A sn dn init dy dx := by
+  simp [rioNN, fromWork, toWork, stretchNodata]
+
+/-- Without source nodata and with `init_dest_nodata`, the backend model is the reference warp of `Spec/Warp` with the
+fill value as nodata — the image `paste_eq_warp` compares the pasted block with. -/
+theorem gdalNN_eq_nnWarp (src dst : Int → Int → Int) (shape : Int × Int) (A : Aff) (dn : Option Int) (dy dx : Int) :
+    gdalNN src dst shape A none dn true dy dx = Warp.nnWarp src shape A (effFill none dn) dy dx := by
+  unfold gdalNN Warp.nnWarp nnPick
+  simp only [if_true]
+  cases Warp.nnIndex shape.1 (A.apply ((dx : Rat) + 1 / 2, (dy : Rat) + 1 / 2)).2 <;>
+    cases Warp.nnIndex shape.2 (A.apply ((dx : Rat) + 1 / 2, (dy : Rat) + 1 / 2)).1 <;> simp
+
 /-! ## non-vacuity -/
 
 example : canPaste ⟨1, 0, 3, 0, -1, 5 + 1 / 64⟩ 1 tol1em3 (1 / 20) = .ok true := by decide +kernel
